@@ -8,7 +8,8 @@ from ..gen import UnitPool, EvalSession, plit, random_uexpr, sibling_uexpr, rand
 LEVEL = "exploration"
 RULE = ("every ordered pair (a, b) of mutually convertible prelude units x magnitudes {1, 40.5, -3, 1e-7, 2.5e12} "
         "x right operand in {same magnitude in b, A converted into b (equal up to rounding), 1.5 x that (far), "
-        "NaN b, 0 b, -0 b}; all twelve comparisons of (A, B) and (B, A) are evaluated in one input and checked for "
+        "NaN b, 0 b, -0 b}, plus zeros of either sign on the left (literal 0, -0, `0 a - 0 a`, `0 a * (-3)`, "
+        "`(-5) a * 0 -> b`) against zeros of either sign and non-zero values in b (all zeros are equal); all twelve comparisons of (A, B) and (B, A) are evaluated in one input and checked for "
         "mirror symmetry, negation, trichotomy, NaN-falseness and (away from the rounding boundary) against the "
         "exact model; thorough adds prefixed/compound units. distinct = (A text, B text); non-trivial = units of A "
         "and B differ in size")
@@ -106,6 +107,8 @@ def run_case(sh, es, w, db, A, B, va, vb_kind, nontrivial):
     nan = vb_kind[0] == "nan"
     if nan:
         mc, boundary = None, False
+    elif vb_kind[0] == "zero":
+        mc, boundary = 2, False
     elif vb_kind[0] == "approx":
         mc, boundary = 0, True
     else:
@@ -146,6 +149,16 @@ def run_shard(sh, spec):
                 run_case(sh, es, w, db, A, f"NaN {sb}", va, ("nan",), nt)
                 run_case(sh, es, w, db, A, f"0 {sb}", va, ("exact", exact(0.0)), nt)
                 run_case(sh, es, w, db, A, f"(-0) {sb}", va, ("exact", exact(0.0)), nt)
+                if x == 1:
+                    # zeros of either sign on the left (as literals and as results of arithmetic: numbat's `0 u - 0 u` and
+                    # `0 u * (-3)` are -0) against zeros of either sign and a non-zero value on the right: all zeros are
+                    # equal, whatever their unit and sign
+                    for Z in (f"0 {sa}", f"(-0) {sa}", f"(0 {sa} - 0 {sa})", f"(0 {sa} * (-3))", f"((-5) {sa} * 0 -> {sb})"):
+                        zv = exact(0.0)
+                        for ZB in (f"0 {sb}", f"(-0) {sb}", f"(0 {sb} - 0 {sb})"):
+                            rz = run_case(sh, es, w, db, Z, ZB, zv, ("zero",), nt)
+                        run_case(sh, es, w, db, Z, f"{plit(x)} {sb}", zv, ("exact", nmul(exact(x), fb)), nt)
+                        run_case(sh, es, w, db, Z, f"(-3) {sb}", zv, ("exact", nmul(exact(-3.0), fb)), nt)
                 if x == 40.5 and i % 97 == 0 and r.get("ok"):
                     sh.sample({"code": comparison_code(A, f"{A} -> {sb}"), "result": r.get("val_text")})
         except (WorkerDied, WorkerTimeout) as e:
